@@ -934,37 +934,44 @@ VF_SUB(sym_aead_roundtrip_and_flips, 260, 10000) {
     if (out != lit) { ctx.fail("aead/" + Mn + "/decrypts-to-other-plaintext", d.str()); return; } if (!decrypted_literal_equals(out, data)) ctx.fail("aead/" + Mn + "/decrypted-literal-differs", d.str());
     SOct full = session_key(skalgo, from_secure(Am.key)); Oct o2; if (!M->Decrypt(full, 0, o2) || o2 != lit) ctx.fail("aead/" + Mn + "/key-with-checksum-refused", d.str()); }
   if (ctx.failed) return; int64_t faults = 0;
-  auto try_enc = [&](const Oct &e) { Oct save = M->encrypted_message; M->encrypted_message = e; Oct out; bool acc = e.size() && M->Decrypt(Am.key, 0, out); M->encrypted_message = save; faults++; return acc; };
-  // ---- every ciphertext / tag byte
-  { FlipPlan P = plan_flips(ctx, Am.enc.size(), ctx.thorough ? 2500 : 700);
-    // make sure every tag octet of the last chunk and the final tag are among the sampled positions
-    if (Am.enc.size() > (ctx.thorough ? 2500u : 700u)) for (size_t p = Am.enc.size() - 32; p < Am.enc.size(); p++) if (std::find(P.pos.begin(), P.pos.end(), p) == P.pos.end()) { P.pos.push_back(p); P.mask.push_back(0x01); }
-    for (size_t i = 0; i < P.pos.size(); i++) { Oct e = Am.enc; e[P.pos[i]] ^= P.mask[i];
-      if (try_enc(e)) { size_t p = P.pos[i], off = p % (cd + 16); const char *w = p >= Am.enc.size() - 16 ? "final-tag" : (p / (cd + 16) < nfull ? (off >= cd ? "chunk-tag" : "chunk-ciphertext") : (p - nfull * (cd + 16) >= lastlen ? "chunk-tag" : "chunk-ciphertext"));
-        ctx.fail("aead/" + Mn + "/flipped-" + w + "-accepted", "offset " + std::to_string(p) + " of " + std::to_string(Am.enc.size()) + " " + d.str()); break; } }
+  // All faults are evaluated object-level on altered members of the parsed message, inside a forked child: the pinned AEAD
+  // decryption has undefined behaviour on some truncated inputs (zero-length VLA), which is C12's business.
+  struct AFault { std::string cls; Oct enc, iv; int c, version, aead, skalgo; SOct key; };
+  std::vector<AFault> F; auto base = [&](const std::string &cls) { AFault f; f.cls = cls; f.enc = Am.enc; f.iv = Am.iv; f.c = c; f.version = 1; f.aead = aead; f.skalgo = skalgo; f.key = Am.key; return f; };
+  { // every ciphertext / tag byte
+    size_t cap = ctx.thorough ? 2500 : 700; FlipPlan P = plan_flips(ctx, Am.enc.size(), cap);
+    if (Am.enc.size() > cap) for (size_t p = Am.enc.size() - 32; p < Am.enc.size(); p++) if (std::find(P.pos.begin(), P.pos.end(), p) == P.pos.end()) { P.pos.push_back(p); P.mask.push_back(0x01); }
+    for (size_t i = 0; i < P.pos.size(); i++) { size_t p = P.pos[i], off = p % (cd + 16);
+      const char *w = p >= Am.enc.size() - 16 ? "final-tag" : (p / (cd + 16) < nfull ? (off >= cd ? "chunk-tag" : "chunk-ciphertext") : (p - nfull * (cd + 16) >= lastlen ? "chunk-tag" : "chunk-ciphertext"));
+      AFault f = base(std::string("flipped-") + w); f.enc[p] ^= P.mask[i]; F.push_back(f); }
     ctx.count("ciphertext_faults", (int64_t)P.pos.size()); }
-  // ---- associated data: the header octets that are authenticated, the nonce, the key
-  if (!ctx.failed) {
-    uint64_t seed = ctx.c.raw64(); Oct out;
-    for (size_t i = 0; i < Am.iv.size() && !ctx.failed; i++) { M->iv[i] ^= flip_mask(seed, i, 0); faults++; if (M->Decrypt(Am.key, 0, out)) ctx.fail("aead/" + Mn + "/flipped-nonce-accepted", "octet " + std::to_string(i) + " " + d.str()); M->iv = Am.iv; }
-    for (int bit = 0; bit < 8 && !ctx.failed; bit++) { M->chunksize = (tmcg_openpgp_byte_t)(c ^ (1 << bit)); faults++; out.clear(); if (M->chunksize <= 8 && M->Decrypt(Am.key, 0, out)) ctx.fail("aead/" + Mn + "/altered-chunk-size-octet-accepted", "chunk size octet " + std::to_string((int)M->chunksize) + " " + d.str()); M->chunksize = (tmcg_openpgp_byte_t)c; }
-    for (int v : {0, 2, 3, 5, 255}) { M->version = (tmcg_openpgp_byte_t)v; faults++; out.clear(); if (M->Decrypt(Am.key, 0, out)) ctx.fail("aead/" + Mn + "/altered-version-octet-accepted", "version " + std::to_string(v) + " " + d.str()); M->version = 1; }
-    if (modes.size() == 2) { M->aeadalgo = (tmcg_openpgp_aeadalgo_t)(3 - aead); faults++; out.clear(); if (M->Decrypt(Am.key, 0, out)) ctx.fail("aead/" + Mn + "/altered-aead-algorithm-octet-accepted", d.str()); M->aeadalgo = (tmcg_openpgp_aeadalgo_t)aead; }
-    for (int o : cs) if (o != skalgo && PGP::AlgorithmKeyLength((tmcg_openpgp_skalgo_t)o) == PGP::AlgorithmKeyLength((tmcg_openpgp_skalgo_t)skalgo)) { M->skalgo = (tmcg_openpgp_skalgo_t)o; faults++; out.clear(); if (M->Decrypt(Am.key, 0, out)) ctx.fail("aead/" + Mn + "/altered-cipher-octet-accepted", std::string(cipher_name(o)) + " " + d.str()); M->skalgo = (tmcg_openpgp_skalgo_t)skalgo; }
-    for (size_t i = 0; i < Am.key.size() && !ctx.failed; i++) { SOct k = Am.key; k[i] ^= flip_mask(seed, i + 64, 0); faults++; out.clear(); if (M->Decrypt(k, 0, out)) ctx.fail("aead/" + Mn + "/flipped-key-accepted", d.str()); }
+  { // associated data: the authenticated header octets, the nonce, the key
+    uint64_t seed = ctx.c.raw64();
+    for (size_t i = 0; i < Am.iv.size(); i++) { AFault f = base("flipped-nonce"); f.iv[i] ^= flip_mask(seed, i, 0); F.push_back(f); }
+    for (int bit = 0; bit < 8; bit++) { int nc = c ^ (1 << bit); if (nc > 8) continue; AFault f = base("altered-chunk-size-octet"); f.c = nc; F.push_back(f); }
+    for (int v : {0, 2, 3, 5, 255}) { AFault f = base("altered-version-octet"); f.version = v; F.push_back(f); }
+    if (modes.size() == 2) { AFault f = base("altered-aead-algorithm-octet"); f.aead = 3 - aead; if (f.aead == 1) f.iv.push_back(0); else f.iv.pop_back(); F.push_back(f); }
+    for (int o : cs) if (o != skalgo && PGP::AlgorithmKeyLength((tmcg_openpgp_skalgo_t)o) == PGP::AlgorithmKeyLength((tmcg_openpgp_skalgo_t)skalgo)) { AFault f = base("altered-cipher-octet"); f.skalgo = o; F.push_back(f); }
+    for (size_t i = 0; i < Am.key.size(); i++) { AFault f = base("flipped-key"); f.key[i] ^= flip_mask(seed, i + 64, 0); F.push_back(f); }
   }
-  // ---- structural faults on the chunk sequence
-  if (!ctx.failed) {
-    const Oct &E = Am.enc; size_t cs16 = cd + 16; auto chunk = [&](size_t k) { return Oct(E.begin() + k * cs16, E.begin() + (k + 1) * cs16); };
-    auto bad = [&](const Oct &e, const char *what) { if (e != E && try_enc(e)) ctx.fail("aead/" + Mn + "/" + what + "-accepted", d.str()); };
-    bad(Oct(E.begin(), E.end() - 16), "dropped-final-tag"); bad(Oct(E.begin(), E.end() - 1), "truncated-final-tag"); { Oct e = E; e.push_back(0); bad(e, "extended-ciphertext"); }
-    { Oct e(E.begin(), E.begin() + nfull * cs16); e.insert(e.end(), E.end() - 16, E.end()); bad(e, "dropped-last-chunk"); } // truncation: last chunk removed, final tag kept
-    if (nfull >= 1) { Oct e(E.begin() + cs16, E.end()); bad(e, "dropped-first-chunk"); }
-    if (nfull >= 2) { Oct e = E; for (size_t j = 0; j < cs16; j++) std::swap(e[j], e[cs16 + j]); bad(e, "swapped-chunks"); Oct f = E; for (size_t j = 0; j < cd; j++) std::swap(f[j], f[cs16 + j]); bad(f, "swapped-chunk-ciphertexts"); }
-    if (nfull >= 3) { size_t a = ctx.c.index(nfull), b = ctx.c.index(nfull); if (a != b) { Oct e = E; for (size_t j = 0; j < cs16; j++) std::swap(e[a * cs16 + j], e[b * cs16 + j]); bad(e, "swapped-chunks"); } }
-    if (nfull >= 1) { Oct e(E.begin(), E.begin() + cs16); e.insert(e.end(), E.begin(), E.end()); bad(e, "duplicated-chunk"); }
-    if (nfull >= 1 && lastlen == cd) { Oct e = E; Oct c0 = chunk(0), cl(E.begin() + nfull * cs16, E.begin() + nfull * cs16 + cs16); std::copy(cl.begin(), cl.end(), e.begin()); std::copy(c0.begin(), c0.end(), e.begin() + nfull * cs16); bad(e, "swapped-chunks"); }
-    { Oct e = E; std::rotate(e.end() - 32, e.end() - 16, e.end()); bad(e, "swapped-last-tags"); }
+  { // structural faults on the chunk sequence
+    const Oct &E = Am.enc; size_t cs16 = cd + 16; auto add = [&](const Oct &e, const char *what) { if (e != E && !e.empty()) { AFault f = base(what); f.enc = e; F.push_back(f); } };
+    add(Oct(E.begin(), E.end() - 16), "dropped-final-tag"); add(Oct(E.begin(), E.end() - 1), "truncated-final-tag"); { Oct e = E; e.push_back(0); add(e, "extended-ciphertext"); }
+    { Oct e(E.begin(), E.begin() + nfull * cs16); e.insert(e.end(), E.end() - 16, E.end()); add(e, "dropped-last-chunk"); } // truncation: last chunk removed, final tag kept
+    { Oct e(E.begin(), E.begin() + nfull * cs16 + lastlen + 16); add(e, "dropped-final-tag"); }
+    if (nfull >= 1) { Oct e(E.begin() + cs16, E.end()); add(e, "dropped-first-chunk"); }
+    if (nfull >= 2) { Oct e = E; for (size_t j = 0; j < cs16; j++) std::swap(e[j], e[cs16 + j]); add(e, "swapped-chunks"); Oct f = E; for (size_t j = 0; j < cd; j++) std::swap(f[j], f[cs16 + j]); add(f, "swapped-chunk-ciphertexts"); }
+    if (nfull >= 3) { size_t a = ctx.c.index(nfull), b = ctx.c.index(nfull); if (a != b) { Oct e = E; for (size_t j = 0; j < cs16; j++) std::swap(e[a * cs16 + j], e[b * cs16 + j]); add(e, "swapped-chunks"); } }
+    if (nfull >= 1) { Oct e(E.begin(), E.begin() + cs16); e.insert(e.end(), E.begin(), E.end()); add(e, "duplicated-chunk"); }
+    if (nfull >= 1 && lastlen == cd) { Oct e = E; for (size_t j = 0; j < cs16; j++) std::swap(e[j], e[nfull * cs16 + j]); add(e, "swapped-chunks"); }
+    { Oct e = E; std::rotate(e.end() - 32, e.end() - 16, e.end()); add(e, "swapped-last-tags"); }
+  }
+  {
+    auto as_packet = [&](size_t i) { Oct p; PGP::PacketAeadEncode((tmcg_openpgp_skalgo_t)F[i].skalgo, (tmcg_openpgp_aeadalgo_t)F[i].aead, (tmcg_openpgp_byte_t)F[i].c, F[i].iv, F[i].enc, p); return p; };
+    auto res = run_forked(ctx, F.size(), [&](size_t i) -> unsigned char {
+      M->encrypted_message = F[i].enc; M->iv = F[i].iv; M->chunksize = (tmcg_openpgp_byte_t)F[i].c; M->version = (tmcg_openpgp_byte_t)F[i].version; M->aeadalgo = (tmcg_openpgp_aeadalgo_t)F[i].aead; M->skalgo = (tmcg_openpgp_skalgo_t)F[i].skalgo;
+      Oct out; if (!M->Decrypt(F[i].key, 0, out)) return 0; return out == lit ? 1 : 2; }, as_packet, "aead");
+    for (size_t i = 0; i < res.size(); i++) { faults++; if (res[i] == 1 || res[i] == 2) { ctx.fail("aead/" + Mn + "/" + F[i].cls + "-accepted", std::string(res[i] == 1 ? "decrypted to the original plaintext: " : "decrypted to OTHER plaintext: ") + d.str() + " packet=" + hexs(as_packet(i), 120)); break; } }
   }
   // ---- every byte of the packet through the parser (forked)
   if (!ctx.failed) {
@@ -977,4 +984,166 @@ VF_SUB(sym_aead_roundtrip_and_flips, 260, 10000) {
       if (region_protected(r)) { ctx.fail("aead/" + Mn + "/flipped-packet-" + region_name(r) + "-accepted", at(pos, P.mask[i], r) + " " + d.str()); break; } else ctx.count(std::string("accepted_unprotected:") + region_name(r)); }
   }
   ctx.count("faults_injected", faults);
+}
+
+// =========================================================================== public-key encrypted session keys
+struct Recipient { Key *k = nullptr; Oct subpkt; std::unique_ptr<TMCG_OpenPGP_PrivateSubkey> prv; };
+static bool make_recipient(Key &k, time_t t, Recipient &R) {
+  R.k = &k; R.subpkt = key_packet(k, t, true);
+  if (k.algo == TMCG_OPENPGP_PKALGO_RSA) R.prv.reset(new TMCG_OpenPGP_PrivateSubkey(k.algo, t, 0, k.m[0], k.m[1], k.sec[1], k.sec[2], k.sec[3], k.sec[0], R.subpkt));
+  else if (k.algo == TMCG_OPENPGP_PKALGO_ELGAMAL) R.prv.reset(new TMCG_OpenPGP_PrivateSubkey(k.algo, t, 0, k.m[0], k.m[1], k.m[2], k.sec[0], R.subpkt));
+  else if (k.algo == TMCG_OPENPGP_PKALGO_ECDH) R.prv.reset(new TMCG_OpenPGP_PrivateSubkey(k.algo, t, 0, k.oidlen, k.oid, k.m[0], k.sec[0], k.kdfh, k.kdfs, R.subpkt));
+  else return false;
+  return R.prv->Good();
+}
+// PKESK v3 body: version, key ID (8), algorithm, then MPIs (ECDH: MPI, length octet, wrapped key)
+static Region pkesk_region(const Oct &in, const Span &s, size_t pos) {
+  if (pos < s.off + s.hdr) return R_FRAMING; size_t b = pos - s.off - s.hdr; const unsigned char *p = in.data() + s.off + s.hdr; if (b < 10) return R_ESKFIELD;
+  int algo = p[9]; size_t m = 10; int nm = algo == 16 ? 2 : 1;
+  for (int j = 0; j < nm && m + 2 <= s.body; j++) { size_t bits = ((size_t)p[m] << 8) | p[m + 1], len = (bits + 7) / 8; if (b < m + 2) return R_ESKFIELD; if (b < m + 2 + len) return R_CIPHERTEXT; m += 2 + len; }
+  if (algo == 18) { if (b == m) return R_ESKFIELD; return R_CIPHERTEXT; }
+  return R_OTHER;
+}
+// ECDH ephemeral point: the format octet (0x40 / 0x04) is an encoding tag, and X25519 ignores the top bit of the last octet (RFC 7748 sec. 5)
+static bool ecdh_point_encoding_slack(const Oct &in, const Span &s, size_t pos, unsigned char mask, bool cv25519) {
+  const unsigned char *p = in.data() + s.off + s.hdr; if (s.body < 13 || p[9] != 18) return false; size_t b = pos - s.off - s.hdr, len = ((((size_t)p[10] << 8) | p[11]) + 7) / 8;
+  if (b == 12) return true; return cv25519 && b == 12 + len - 1 && mask == 0x80;
+}
+VF_SUB(pkesk_roundtrip, 160, 6000) {
+  PGP::MemoryGuardReset();
+  static const char *rk[] = {"rsa2048e", "elg2048", "ecdh25519", "ecdh256"}; Key &k = key_named(rk[ctx.c.weighted({3, 3, 2, 2})]); const std::string A = algo_name(k.algo) + (k.curve.empty() ? std::string("") : "/" + k.curve);
+  time_t t = vtime() - 1000; Recipient R; if (!make_recipient(k, t, R)) { ctx.fail("pkesk/" + A + "/library-key-object-bad", k.name); return; }
+  bool aead = ctx.c.prob(1, 4) && aead_mode_available(2), wildcard = ctx.c.coin(); std::string lcls; size_t len = pick_plain_len(ctx, lcls); if (len > 600) len = 600;
+  Oct data = gen_binary_doc(ctx, len), lit, encpkt, expect; PGP::PacketLitEncode(data, lit); SOct seskey;
+  if (aead) { AeadMsg Am = make_aead(9, 2, 0, lit); if (!Am.ok) { ctx.fail("aead/ocb/library-cannot-encrypt", Am.err); return; } seskey = session_key(9, from_secure(Am.key)); encpkt = Am.pkt; expect = lit; }
+  else { Oct prefix, dummy, mdcpkt, enc; if (PGP::SymmetricEncryptAES256(lit, seskey, prefix, true, dummy)) { ctx.fail("sym/mdc/library-cannot-encrypt", ""); return; }
+    Oct hin = prefix; app(hin, lit); hin.push_back(0xD3); hin.push_back(0x14); PGP::PacketMdcEncode(H(2, hin), mdcpkt); expect = cat(lit, mdcpkt);
+    if (PGP::SymmetricEncryptAES256(expect, seskey, prefix, false, enc)) { ctx.fail("sym/mdc/library-cannot-encrypt", ""); return; } PGP::PacketSeipdEncode(enc, encpkt); }
+  Oct keyid = wildcard ? Oct(8, 0) : R.prv->pub->id, pkesk; gcry_error_t e = 0;
+  if (k.algo == TMCG_OPENPGP_PKALGO_RSA) { gcry_mpi_t me = gcry_mpi_new(8); e = PGP::AsymmetricEncryptRSA(seskey, R.prv->pub->key, me); if (!e) PGP::PacketPkeskEncode(keyid, me, pkesk); gcry_mpi_release(me); }
+  else if (k.algo == TMCG_OPENPGP_PKALGO_ELGAMAL) { gcry_mpi_t gk = gcry_mpi_new(8), myk = gcry_mpi_new(8); e = PGP::AsymmetricEncryptElgamal(seskey, R.prv->pub->key, gk, myk); if (!e) PGP::PacketPkeskEncode(keyid, gk, myk, pkesk); gcry_mpi_release(gk); gcry_mpi_release(myk); }
+  else { gcry_mpi_t ep = gcry_mpi_new(8); size_t rl = 0; tmcg_openpgp_byte_t rkw[256]; memset(rkw, 0, sizeof rkw);
+    e = PGP::AsymmetricEncryptECDH(seskey, R.prv->pub->key, k.kdfh, k.kdfs, k.curve, R.prv->pub->fingerprint, ep, rl, rkw); if (!e) PGP::PacketPkeskEncode(keyid, ep, rl, rkw, pkesk); gcry_mpi_release(ep); }
+  std::ostringstream d; d << k.name << (wildcard ? " wildcard-keyid" : " keyid") << (aead ? " + AEAD(OCB)" : " + SEIPD") << " plaintext=" << lcls << "(" << data.size() << ")"; ctx.desc << d.str();
+  ctx.label("recipient:" + A); ctx.label(aead ? "data:aead" : "data:seipd"); ctx.label(wildcard ? "keyid:wildcard" : "keyid:set");
+  if (e) { ctx.fail("pkesk/" + A + "/library-cannot-encrypt", std::string(gcry_strerror(e)) + " " + d.str()); return; }
+  Oct msgb = cat(pkesk, encpkt); ctx.nontrivial(d.str() + hkey(msgb));
+  // 0 refused; 1 original plaintext; 2 other plaintext; 3 session key recovered but data refused
+  auto eval = [&](const Oct &bytes, bool want_key_only) -> unsigned char {
+    TMCG_OpenPGP_Message *msg = nullptr; if (!PGP::MessageParse(bytes, 0, msg)) return 0; unsigned char r = 0;
+    if (msg->PKESKs.size() >= 1) { const TMCG_OpenPGP_PKESK *esk = msg->PKESKs[0]; SOct sk; if (R.prv->Decrypt(esk, 0, sk)) { if (want_key_only) r = (from_secure(sk) == Oct(seskey.begin(), seskey.begin() + sk.size()) && sk.size() + 2 >= seskey.size()) ? 1 : 2;
+      else { Oct out; if (msg->Decrypt(sk, 0, out)) r = out == expect ? 1 : 2; else r = 3; } } }
+    delete msg; return r; };
+  // ---- positive
+  if (eval(msgb, true) != 1) { ctx.fail("pkesk/" + A + "/session-key-not-recovered", "PrivateSubkey::Decrypt did not return the wrapped session key: " + d.str() + " pkesk=" + hexs(pkesk, 700)); return; }
+  if (eval(msgb, false) != 1) { ctx.fail("pkesk/" + A + "/untouched-message-refused", d.str()); return; }
+  // a different recipient key must not unwrap it
+  { Key &o = key_named(k.name == "rsa2048e" ? "rsa2048b" : k.name == "ecdh25519" ? "ecdh256" : k.name == "ecdh256" ? "ecdh25519" : "rsa2048b"); Recipient R2;
+    if (o.algo == TMCG_OPENPGP_PKALGO_RSA || o.algo == TMCG_OPENPGP_PKALGO_ECDH) if (make_recipient(o, t, R2)) { TMCG_OpenPGP_Message *msg = nullptr;
+      if (PGP::MessageParse(msgb, 0, msg)) { SOct sk; Oct out; const TMCG_OpenPGP_PKESK *esk = msg->PKESKs.size() ? msg->PKESKs[0] : nullptr; if (esk && R2.prv->Decrypt(esk, 0, sk) && msg->Decrypt(sk, 0, out)) ctx.fail("pkesk/" + A + "/other-recipient-decrypts", d.str()); delete msg; } } }
+  if (ctx.failed) return;
+  // ---- every byte of the PKESK packet, plus a sample of the data packet, through the parser (forked)
+  std::vector<Span> sp; if (!split_packets(msgb, sp) || sp.size() != 2 || sp[0].tag != 1) { ctx.fail("pkesk/" + A + "/packet-framing-unexpected", hexs(msgb, 30)); return; }
+  FlipPlan P = plan_flips(ctx, sp[0].end(), ctx.thorough ? 1200 : 600); double cost = k.algo == TMCG_OPENPGP_PKALGO_RSA ? 12 : k.algo == TMCG_OPENPGP_PKALGO_ELGAMAL ? 12 : 3;
+  thin(P, [&](size_t pos) { Region r = pkesk_region(msgb, sp[0], pos); return r == R_CIPHERTEXT || r == R_ESKFIELD; }, (size_t)((ctx.thorough ? 2500 : 800) / cost), ctx.c.raw64());
+  { uint64_t seed = ctx.c.raw64(); for (int j = 0; j < 24; j++) { size_t p = sp[1].off + (size_t)(mix64(seed ^ mix64(j)) % (sp[1].hdr + sp[1].body)); P.pos.push_back(p); P.mask.push_back(flip_mask(seed, p, 0)); } }
+  auto mutated = [&](size_t i) { Oct m = msgb; m[P.pos[i]] ^= P.mask[i]; return m; };
+  auto res = run_forked(ctx, P.pos.size(), [&](size_t i) -> unsigned char { return eval(mutated(i), false); }, mutated, "pkesk");
+  for (size_t i = 0; i < res.size(); i++) {
+    if (res[i] >= 0xF0 || res[i] == 0 || res[i] == 3) continue; size_t pos = P.pos[i]; bool in_esk = pos < sp[0].end();
+    Region r = in_esk ? pkesk_region(msgb, sp[0], pos) : (pos < sp[1].off + sp[1].hdr ? R_FRAMING : (aead ? (pos < sp[1].off + sp[1].hdr + 4 + 15 ? R_AEADHDR : R_CIPHERTEXT) : (pos == sp[1].off + sp[1].hdr ? R_VERSION : R_CIPHERTEXT)));
+    if (in_esk && r == R_CIPHERTEXT && ecdh_point_encoding_slack(msgb, sp[0], pos, P.mask[i], k.curve == "Curve25519")) r = R_ESKFIELD;
+    if (r == R_CIPHERTEXT || r == R_AEADHDR) { ctx.fail(std::string("pkesk/") + A + (in_esk ? "/flipped-wrapped-key-accepted" : "/flipped-data-accepted"), std::string(res[i] == 1 ? "decrypted to the original plaintext: " : "decrypted to OTHER plaintext: ") + at(pos, P.mask[i], r) + " " + d.str() + " msg=" + hexs(msgb, 700)); break; }
+    ctx.count(std::string("accepted_unprotected:") + region_name(r));
+  }
+  ctx.count("faults_injected", (int64_t)res.size());
+}
+
+// =========================================================================== AEAD nonce schedule: an independent decryptor, and what nonce reuse between chunks allows
+// Reference decryption after draft-ietf-openpgp-rfc4880bis (the text the library quotes): nonce_i = IV with its low 64 bits XORed with
+// the chunk index i; AD_i = D4 01 cipher mode chunkoctet || i (8 octets); final tag over the empty string with AD || total length.
+static bool ref_aead_decrypt(int skalgo, int aead, int c, const Oct &key, const Oct &iv, const Oct &enc, Oct &out, std::string &why) {
+  size_t cd = (size_t)1 << (c + 6); if (enc.size() < 32) { why = "too short"; return false; }
+  size_t body = enc.size() - 16, nch = 0, p = 0; gcry_cipher_hd_t hd; if (gcry_cipher_open(&hd, gc_cipher(skalgo), aead == 1 ? GCRY_CIPHER_MODE_EAX : GCRY_CIPHER_MODE_OCB, 0)) { why = "cipher open"; return false; }
+  bool ok = !gcry_cipher_setkey(hd, key.data(), key.size()); uint64_t total = 0;
+  auto nonce = [&](uint64_t idx) { Oct n = iv; for (int j = 0; j < 8; j++) n[n.size() - 1 - j] ^= (unsigned char)(idx >> (8 * j)); return n; };
+  auto ad = [&](uint64_t idx) { Oct a = {0xD4, 0x01, (unsigned char)skalgo, (unsigned char)aead, (unsigned char)c}; for (int j = 7; j >= 0; j--) a.push_back((unsigned char)(idx >> (8 * j))); return a; };
+  while (ok && p < body) {
+    size_t take = std::min(cd, body - p - 16); if (body - p < 17) { why = "chunk framing"; ok = false; break; }
+    Oct n = nonce(nch), a = ad(nch), pt(take);
+    ok = !gcry_cipher_setiv(hd, n.data(), n.size()) && !gcry_cipher_authenticate(hd, a.data(), a.size()) && !gcry_cipher_final(hd) && !gcry_cipher_decrypt(hd, pt.data(), take, enc.data() + p, take);
+    if (ok && gcry_cipher_checktag(hd, enc.data() + p + take, 16)) { why = "tag of chunk " + std::to_string(nch) + " does not verify"; ok = false; break; }
+    app(out, pt); total += take; p += take + 16; nch++;
+  }
+  if (ok) { Oct n = nonce(nch), a = ad(nch); for (int j = 7; j >= 0; j--) a.push_back((unsigned char)(total >> (8 * j))); unsigned char dummy;
+    ok = !gcry_cipher_setiv(hd, n.data(), n.size()) && !gcry_cipher_authenticate(hd, a.data(), a.size()) && !gcry_cipher_final(hd) && !gcry_cipher_decrypt(hd, &dummy, 0, NULL, 0);
+    if (ok && gcry_cipher_checktag(hd, enc.data() + body, 16)) { why = "final tag does not verify"; ok = false; } }
+  else if (why.empty()) why = "libgcrypt error";
+  gcry_cipher_close(hd); return ok;
+}
+VF_SUB(aead_nonce_schedule, 120, 4000) {
+  PGP::MemoryGuardReset();
+  std::vector<int> modes; if (aead_mode_available(2)) modes.push_back(2); if (aead_mode_available(1)) modes.push_back(1);
+  if (modes.empty()) { ctx.count("skipped_no_aead_mode"); ctx.label("skipped"); return; }
+  int aead = modes[ctx.c.index(modes.size())]; std::vector<int> cs = usable_ciphers(true); int skalgo = cs[ctx.c.index(cs.size())]; int c = (int)ctx.c.weighted({5, 2, 1}); size_t cd = (size_t)1 << (c + 6);
+  const std::string Mn = aead == 2 ? "ocb" : "eax"; bool splice = aead == 2 && ctx.c.coin();
+  size_t nchunks = splice ? (size_t)ctx.c.range(4, 7) : (size_t)ctx.c.range(1, 7); size_t want = (nchunks - 1) * cd + (splice ? cd : (size_t)ctx.c.range(1, cd)); Oct data, lit = literal_of_total_length(ctx, want, data);
+  std::ostringstream d; d << cipher_name(skalgo) << (aead == 2 ? " OCB" : " EAX") << " chunk-octet=" << c << " chunks=" << nchunks << " plaintext=" << lit.size(); ctx.label(aead == 2 ? "mode:OCB" : "mode:EAX"); ctx.label("chunks:" + std::to_string(nchunks)); ctx.label(splice ? "cross-chunk-splice" : "reference-decryptor");
+  if (splice) { // plaintext blocks 1 and 2 of chunks 0 and 3 differ by the same XOR difference
+    size_t hdr = lit.size() - data.size(); uint64_t seed = ctx.c.raw64();
+    for (size_t i = 0; i < 16; i++) { unsigned char D = (unsigned char)(1 + mix64(seed ^ i) % 255); lit[3 * cd + 16 + i] = lit[16 + i] ^ D; lit[3 * cd + 32 + i] = lit[32 + i] ^ D; }
+    data.assign(lit.begin() + hdr, lit.end());
+  }
+  ctx.desc << d.str(); ctx.nontrivial(d.str() + hkey(lit));
+  AeadMsg Am = make_aead(skalgo, aead, c, lit); if (!Am.ok) { ctx.fail("aead/" + Mn + "/library-cannot-encrypt", Am.err + " " + d.str()); return; }
+  TMCG_OpenPGP_Message *msg = nullptr; if (!PGP::MessageParse(Am.pkt, 0, msg)) { ctx.fail("aead/" + Mn + "/untouched-message-unparsable", d.str()); return; } std::unique_ptr<TMCG_OpenPGP_Message> M(msg);
+  { Oct out; if (!M->Decrypt(Am.key, 0, out) || out != lit) { ctx.fail("aead/" + Mn + "/untouched-message-refused", d.str()); return; } }
+  if (!splice) {
+    Oct out; std::string why; bool ok = ref_aead_decrypt(skalgo, aead, c, from_secure(Am.key), Am.iv, Am.enc, out, why);
+    if (!ok) ctx.fail("aead/" + Mn + "/reference-decryptor-refuses-library-ciphertext", "an independent implementation of the draft's chunked AEAD cannot decrypt what the library encrypted (" + why + "): " + d.str() + " iv=" + hexs(Am.iv, 16) + " key=" + hexs(from_secure(Am.key), 32) + " ct=" + hexs(Am.enc, 64));
+    else if (out != lit) ctx.fail("aead/" + Mn + "/reference-decryptor-gets-other-plaintext", d.str());
+    return;
+  }
+  // ciphertext blocks 1 and 2 of chunk 3 spliced into chunk 0: altered ciphertext, altered plaintext; accepted iff chunks 0 and 3 share a nonce
+  Oct forged = Am.enc; size_t cs16 = cd + 16; for (size_t i = 16; i < 48; i++) forged[i] = Am.enc[3 * cs16 + i];
+  Oct expect_forged = lit; for (size_t i = 16; i < 48; i++) expect_forged[i] = lit[3 * cd + i];
+  auto as_packet = [&](size_t) { Oct p; PGP::PacketAeadEncode((tmcg_openpgp_skalgo_t)skalgo, (tmcg_openpgp_aeadalgo_t)aead, (tmcg_openpgp_byte_t)c, Am.iv, forged, p); return p; };
+  auto res = run_forked(ctx, 1, [&](size_t) -> unsigned char { M->encrypted_message = forged; Oct out; if (!M->Decrypt(Am.key, 0, out)) return 0; return out == lit ? 1 : out == expect_forged ? 2 : 3; }, as_packet, "aead");
+  ctx.count("faults_injected", 1);
+  if (res[0] >= 1 && res[0] <= 3) ctx.fail("aead/ocb/spliced-ciphertext-blocks-accepted", std::string("32 ciphertext octets of chunk 0 replaced by those of chunk 3; Decrypt returned true and ") + (res[0] == 2 ? "the spliced plaintext" : res[0] == 1 ? "the original plaintext" : "another plaintext") + ": " + d.str() + " packet=" + hexs(as_packet(0), 80));
+}
+
+// =========================================================================== GnuPG as second judge (RFC 4880 subset)
+static std::string sh_quote(const std::string &s) { return "'" + s + "'"; }
+static int run_cmd(const std::string &cmd, const std::string &outfile) { int st = system((cmd + " >" + sh_quote(outfile) + " 2>&1 </dev/null").c_str()); if (st == -1) return -1; return WIFEXITED(st) ? WEXITSTATUS(st) : 128 + WTERMSIG(st); }
+static std::string slurp(const std::string &p) { std::ifstream f(p); std::stringstream ss; ss << f.rdbuf(); return ss.str(); }
+VF_SUB(gpg_cross_check, 12, 400) {
+  PGP::MemoryGuardReset();
+  static int have_gpgv = -1; if (have_gpgv < 0) have_gpgv = system("gpgv --version >/dev/null 2>&1") == 0 ? 1 : 0;
+  if (!have_gpgv) { ctx.count("skipped_gpgv_unavailable"); ctx.label("skipped"); ctx.desc << "gpgv not installed"; return; }
+  static const char *ks[] = {"rsa2048a", "rsa2048b", "dsa2048a", "dsa2048b"}; Key &k = key_named(ks[ctx.c.index(4)]); const std::string A = algo_name(k.algo);
+  tmcg_openpgp_hashalgo_t h = k.algo == TMCG_OPENPGP_PKALGO_RSA ? (tmcg_openpgp_hashalgo_t)STRONG_HASHES[ctx.c.index(3)] : TMCG_OPENPGP_HASHALGO_SHA256; bool text = ctx.c.prob(1, 4), lone_cr = false;
+  Oct data = text ? gen_text_doc(ctx, (size_t)ctx.c.range(0, 400), lone_cr) : gen_binary_doc(ctx, (size_t)ctx.c.small(0, 5000)); if (text && lone_cr) data = to_lf(to_crlf(data)), text = true;
+  for (auto &b : data) if (text && b == '\r') b = ' ';
+  BlockSpec sp; sp.prim = &k; sp.uid = "C20 Test <c20@example.invalid>"; sp.h_uid = TMCG_OPENPGP_HASHALGO_SHA256; sp.keytime = vtime() - 5000; sp.uidsigtime = sp.keytime + 1; sp.issuer_fpr = ctx.c.coin(); sp.bis = false;
+  Block B = build_block(sp); if (!B.ok) { ctx.fail("cert/" + A + "/library-cannot-build-block", B.err); return; }
+  DocSig S = make_docsig(k, 4, text, h, vtime() - 100, 0, "", sp.issuer_fpr ? B.fpr : B.kid, data); if (!S.ok) { ctx.fail("sig/" + A + "/library-cannot-sign", S.err); return; }
+  ctx.desc << k.name << " " << hash_name(h) << (text ? " text" : " binary") << " doc(" << data.size() << ") judged by gpgv"; ctx.label(std::string("algo:") + A); ctx.label(text ? "type:text" : "type:binary"); ctx.nontrivial(ctx.desc.str() + hkey(S.pkt));
+  { std::unique_ptr<TMCG_OpenPGP_Signature> sig(parse_sig(S.pkt)); if (!sig || !sig->VerifyData(k.pub, data, 0)) { ctx.fail("sig/" + A + "/untouched-signature-refused", ctx.desc.str()); return; } }
+  char tmpl[] = "/tmp/c20gpg-XXXXXX"; if (!mkdtemp(tmpl)) { ctx.count("skipped_no_tmpdir"); ctx.label("skipped"); return; } std::string D = tmpl; chmod(D.c_str(), 0700);
+  Oct bad = data; if (bad.empty()) bad.push_back('x'); else bad[ctx.c.index(bad.size())] ^= 0x01; if (text) for (auto &b : bad) if (b == '\r' || b == '\n') b = '#';
+  Oct badsig = S.pkt; badsig[badsig.size() - 1 - ctx.c.index(20)] ^= 0x04;
+  write_file(D + "/key.gpg", B.all); write_file(D + "/doc", data); write_file(D + "/doc.sig", S.pkt); write_file(D + "/bad", bad); write_file(D + "/bad.sig", S.pkt); write_file(D + "/doc2", data); write_file(D + "/doc2.sig", badsig);
+  std::string base = "gpgv --homedir " + sh_quote(D) + " --keyring " + sh_quote(D + "/key.gpg") + " --ignore-time-conflict --status-fd 1 ";
+  int r1 = run_cmd(base + sh_quote(D + "/doc.sig") + " " + sh_quote(D + "/doc"), D + "/out1"); std::string o1 = slurp(D + "/out1");
+  int r2 = run_cmd(base + sh_quote(D + "/bad.sig") + " " + sh_quote(D + "/bad"), D + "/out2"); std::string o2 = slurp(D + "/out2");
+  int r3 = run_cmd(base + sh_quote(D + "/doc2.sig") + " " + sh_quote(D + "/doc2"), D + "/out3"); std::string o3 = slurp(D + "/out3");
+  if (system(("rm -rf " + sh_quote(D)).c_str())) {}
+  auto brief = [](const std::string &o) { std::string s; std::istringstream in(o); std::string l; while (std::getline(in, l)) if (l.find("[GNUPG:]") != std::string::npos) s += l.substr(0, 70) + " | "; return s.substr(0, 400); };
+  bool good1 = r1 == 0 && o1.find("GOODSIG") != std::string::npos && o1.find("VALIDSIG") != std::string::npos;
+  if (good1) { ctx.label("gnupg:GOODSIG"); ctx.count("gnupg_agreed_good"); }
+  else if (o1.find("BADSIG") != std::string::npos) ctx.fail("gpg/" + A + "/gnupg-says-bad-signature", "gpgv judged the library's signature BAD: " + ctx.desc.str() + " status: " + brief(o1));
+  else { ctx.label("gnupg:skipped"); ctx.count("skipped_gnupg_no_verdict"); ctx.desc << " (no verdict: rc=" << r1 << " " << brief(o1) << ")"; return; }
+  if (r2 == 0 || o2.find("GOODSIG") != std::string::npos) ctx.fail("gpg/judge-accepts-altered-document", "the second judge is unusable: " + brief(o2)); else ctx.count("gnupg_agreed_bad");
+  if (r3 == 0 || o3.find("GOODSIG") != std::string::npos) ctx.fail("gpg/judge-accepts-altered-signature", "the second judge is unusable: " + brief(o3)); else ctx.count("gnupg_agreed_bad");
 }
